@@ -48,8 +48,9 @@ def same_bytes_probe(ctx_, work, rng, nb):
     fails, nlines = [], 0
     for b in range(nb):
         ms = l2data.gen_methods(rng, 9)
-        r = l2data.build_and_run(ctx_["idlc"], os.path.join(work, "wiredata%d" % b), ms, chain=(b % 2 == 1))
-        idl = l2data.render_idl(ms, b % 2 == 1)
+        op = l2data.mark_optional(rng, ms)
+        r = l2data.build_and_run(ctx_["idlc"], os.path.join(work, "wiredata%d" % b), ms, chain=(b % 2 == 1), opt=op)
+        idl = l2data.render_idl(ms, b % 2 == 1, op)
         if r.get("stage") != "run" or r.get("rc") != 0:
             fails.append({"property": ctx_["prop"], "idl": idl, "what": "the nine-pairing data program does not build or aborts (%s): %s" % (r.get("stage"), (r.get("err") or "")[-600:])})
             continue
